@@ -8,7 +8,7 @@
 // The overlay always contains every file under <verif>/mount (mapped to the same relative
 // path under <repo>). Features add rewritten copies of repository files:
 //
-//	sched : import "sync" -> zzverif/vsync in cache, frac, fracmanager;
+//	sched : import "sync" -> zzverif/vsync in cache, frac, fracmanager, bytespool;
 //	        `go func(){...}()` -> vsched.Go(func(){...}) in fracmanager/{fetcher,searcher}.go
 //	fs    : import "os"   -> zzverif/vos in frac, fracmanager, disk, util/fs.go
 //	small : consts.IDsPerBlock=IDsBlockSize=4, LIDBlockCap=4, RegularBlockSize=64
@@ -87,7 +87,10 @@ func main() {
 	rs := rewriteSet{}
 	goStmt := map[string]bool{}
 	if feat["sched"] {
-		for _, d := range []string{"cache", "frac", "fracmanager"} {
+		// bytespool: its size-class pools become vsync.Pool = deterministic LIFO free lists, so which dirty
+		// buffer a search or a seal gets back is a function of the schedule alone (sync.Pool's per-P caches
+		// and GC-driven emptying are outside the scheduler's control)
+		for _, d := range []string{"cache", "frac", "fracmanager", "bytespool"} {
 			for _, f := range goFiles(*repo, d) {
 				// FileWriter keeps the real sync primitives: its mutex / waitgroup are only shared with its own
 				// free-running syncLoop helper goroutine (request/response over channels), never held across a
